@@ -19,7 +19,7 @@ def splitDot (s : String) : Option (Nat × Nat) :=
 
 mutual
 /-- prefix notation, tokens separated by `,`:
-    N<t><q> | K<addr>.<len> | V<hexname> | + e e | GE | GZ | F | R<n>.<c> | C<f>.<nargs> e… -/
+    N<t><q> | K<addr>.<len> | V<hexname> | + e e | GE | GZ | F | R<n>.<c> | C<hexname>.<nargs> e… -/
 def parseExpr : Nat → List String → Option (FExpr × List String)
   | 0, _ => none
   | _, [] => none
@@ -43,12 +43,15 @@ def parseExpr : Nat → List String → Option (FExpr × List String)
     | ['F'] => some (FExpr.fail, rest)
     | 'R' :: r => (splitDot (String.ofList r)).map (fun x => (FExpr.rep x.1 x.2, rest))
     | 'C' :: r =>
-      match splitDot (String.ofList r) with
-      | some (f, n) =>
-        match parseArgs fuel n rest with
-        | some (args, rest1) => some (FExpr.call f args, rest1)
-        | none => none
-      | none => none
+      match (String.ofList r).splitOn "." with
+      | [f, n] =>
+        match ofHex f, n.toNat? with
+        | some f, some n =>
+          match parseArgs fuel n rest with
+          | some (args, rest1) => some (FExpr.call f args, rest1)
+          | none => none
+        | _, _ => none
+      | _ => none
     | _ => none
 
 def parseArgs : Nat → Nat → List String → Option (List FExpr × List String)
@@ -77,25 +80,23 @@ def allSome : List (Option α) → Option (List α)
 def parseNames (t : String) : Option (List Bytes) :=
   if t == "-" then some [] else allSome ((t.splitOn ",").map ofHex)
 
-/-- `<sigil>:<params>:<body>` -/
-def parseFn (t : String) : Option FnDecl :=
-  match t.splitOn ":" with
-  | [sg, ps, body] => do
-      let ty ← match sg.toList with
-               | [c] => parseTy c
-               | _ => none
-      let ps ← parseNames ps
-      let b ← parseE body
-      pure ⟨ty, ps, b⟩
-  | _ => none
-
-def parseFns (t : String) : Option (List FnDecl) :=
-  if t == "-" then some [] else allSome ((t.splitOn ";").map parseFn)
-
+/-- `L:<name>:<e>` | `P:<e>` | `T:<type>:<lo>:<hi>` | `D:<fname>:<params>:<body>` (names as written) -/
 def parseStmt (t : String) : Option Stmt :=
   match t.splitOn ":" with
   | ["L", n, e] => do let n ← ofHex n; let e ← parseE e; pure (Stmt.letS n e)
   | ["P", e] => (parseE e).map Stmt.printS
+  | ["T", ty, lo, hi] => do
+      let ty ← match ty.toList with
+               | [c] => parseTy c
+               | _ => none
+      let lo ← lo.toNat?
+      let hi ← hi.toNat?
+      pure (Stmt.defType ty lo hi)
+  | ["D", n, ps, body] => do
+      let n ← ofHex n
+      let ps ← parseNames ps
+      let b ← parseE body
+      pure (Stmt.defFn n ps b)
   | _ => none
 
 def parseCode (t : String) : Option (List (Nat × Bytes)) :=
@@ -119,18 +120,18 @@ def dump (s : St) (names : List Bytes) : String :=
   joinWith "," (names.map (fun n =>
     if sigil n = .str then showBytes (readStr s n) else toString (getNum s n)))
 
-/-- `run <codeStart> <varStart> <total> <stackSize> <code> <fns> <names> <stmts>` -/
+/-- `run <codeStart> <varStart> <total> <stackSize> <code> <names> <stmts>` -/
 def handle : List String → String
-  | ["run", cs, vs, tot, stk, code, fns, names, stmts] =>
-    match cs.toNat?, vs.toNat?, tot.toNat?, stk.toNat?, parseCode code, parseFns fns, parseNames names,
+  | ["run", cs, vs, tot, stk, code, names, stmts] =>
+    match cs.toNat?, vs.toNat?, tot.toNat?, stk.toNat?, parseCode code, parseNames names,
           allSome ((stmts.splitOn ";").map parseStmt) with
-    | some cs, some vs, some tot, some stk, some code, some fns, some names, some stmts =>
-      let s0 := initSt (init cs vs tot stk code)
-      let outs := runStmts fns stmts s0
+    | some cs, some vs, some tot, some stk, some code, some names, some stmts =>
+      let p0 : Prog := ⟨defTy0, [], initSt (init cs vs tot stk code)⟩
+      let outs := runStmts stmts p0
       "ok " ++ joinWith ";" (outs.map (fun so =>
-        showOut so.2 ++ "/" ++ dump so.1 names ++ "/" ++ toString so.1.busy.length ++ "." ++
-          toString so.1.h.stack.length))
-    | _, _, _, _, _, _, _, _ => "bad-op"
+        showOut so.2 ++ "/" ++ dump so.1.s names ++ "/" ++ toString so.1.s.busy.length ++ "." ++
+          toString so.1.s.h.stack.length))
+    | _, _, _, _, _, _, _ => "bad-op"
   | _ => "bad-op"
 
 end PcbV.Drv.C20
